@@ -266,13 +266,21 @@ def iterLends (cfg : Cfg) (s : State) (lendId : Nat) (r : Int) : E State := do
                                             stats := addTotalLend (addTotalInterest s.stats l.pool l.asset (-r)) l.pool l.asset r }
   else pure s
 
-abbrev ExtB := Option (Dec × Dec)
+/-- What the real `IterateBorrow` did: it added `dI` to the interest and `dR` to the reserve share, or returned an
+error, or panicked (a zero global index is a division panic).  An error and a panic both reject the message that
+called it; `MsgCalculateInterestAndRewards` swallows the error but not the panic. -/
+inductive ExtB where
+  | val (dI dR : Dec)
+  | err
+  | panic
+  deriving Repr, DecidableEq
 
 /-- `IterateBorrow` (iter.go:144-184) with its increments as input. -/
 def iterBorrow (s : State) (id : Nat) (x : ExtB) : E State :=
   match x with
-  | none => .error "iterate borrow failed"
-  | some (dI, dR) =>
+  | .err => .error "iterate borrow failed"
+  | .panic => .error "iterate borrow panicked"
+  | .val dI dR =>
     match getBorrow s.borrows id with
     | none => .error "borrow not found"
     | some b => .ok { s with borrows := (setBorrow s.borrows { b with interest := b.interest + dI, reserveInt := if dR > 0 then b.reserveInt + dR else b.reserveInt }) }
@@ -616,12 +624,15 @@ def calcBorrow (s : State) (u : Nat) (borrowId : Nat) (ext : ExtB) : E State := 
   check (l.owner == u) "unauthorized"
   iterBorrow s borrowId ext
 
-def calcBorrows (s : State) (u : Nat) : List (Nat × ExtB) → State
-  | [] => s
+def calcBorrows (s : State) (u : Nat) : List (Nat × ExtB) → E State
+  | [] => .ok s
   | (id, ext) :: rest =>
     match calcBorrow s u id ext with
     | .ok s1 => calcBorrows s1 u rest
-    | .error _ => calcBorrows s u rest
+    | .error _ =>
+      -- `continue` on an error; a panic inside IterateBorrow (reached only when the guards passed) aborts the message
+      if ext = .panic ∧ (calcBorrow s u id (.val 0 0)).toBool then .error "iterate borrow panicked"
+      else calcBorrows s u rest
 
 def calcLends (cfg : Cfg) (s : State) (u : Nat) : List (Nat × Int) → E State
   | [] => .ok s
@@ -639,7 +650,8 @@ def calcMsg (cfg : Cfg) (s : State) (u : Nat) (bs : List (Nat × ExtB)) (ls : Li
   check (!mine.isEmpty) "lend not found"
   check (ls.map (·.1) == mine.map (·.id)) "ext lend ids mismatch"
   check (bs.map (·.1) == (mine.flatMap fun l => (borrowsOfLend s.borrows l.id).map (·.id))) "ext borrow ids mismatch"
-  calcLends cfg (calcBorrows s u bs) u ls
+  let s1 ← calcBorrows s u bs
+  calcLends cfg s1 u ls
 
 /-! ## Funding messages (bank only) -/
 
